@@ -27,6 +27,16 @@ CHECKS = {
    "Generated metadata histories (lazy/pre-created/truncated/deleted/odd-sized groups, altered durations, 1-4 nodes) on a real single-node meta service with two clients; generated batches are mapped by the real PointsWriter and judged: multiset conservation, each point in the unique live group the metadata designates and in the shard an independent FNV-64a of the canonical key selects, same shard when mapped alone / in other batches / with permuted tags / by the second client, retention drop judged with clock brackets, end-to-end delivery to owners.",
    "Sampled; authoritative metadata observed through client snapshots; retention boundary judged only outside the measured clock bracket.",
    "DESIGN.md section 3 C08"),
+ "C09": ("exploration",
+   "constructed TSM file sets with known logical content -> real Compactor (full/fast/snapshot) -> content and structure oracles; aborts and failures injected at the compact.block hook",
+   "The harness writes 1-8 TSM files itself (overlapping/interleaved blocks, all five types, tombstones through TSMReader), so the expected per-key content is known without trusting any reader; CompactFull/CompactFast with 1..1000 points per block and Compactor.WriteSnapshot are run, outputs are read back with fresh readers and through FileStore KeyCursors in both directions and compared; index entries must be sorted, disjoint and within limits; aborts/failures at the k-th block must leave inputs byte-identical, readable and no temp files behind.",
+   "Sampled file sets; files are passed in engine order; 2 GiB rollover and reader I/O errors not exercised; crash atomicity of Replace belongs to C01.",
+   "DESIGN.md section 3 C09"),
+ "C10": ("exploration",
+   "reference-model comparison of reads and listings after every step of delete-heavy histories; hook-scheduled interleavings (delete inside a parked / held snapshot); crash images inside the delete path",
+   "Delete-heavy seeded histories on inmem and tsi1 stores: after every step (snapshots, every compaction kind, restarts) all series fields are read through both APIs and MeasurementNames/TagKeys/TagValues/SeriesCardinality are compared with the model's live-series set; deletes are also issued from inside the snap.written hook (snapshot in flight) and while an injected-failure snapshot is held for retry; crash images at del.*/tomb.committed hooks are reopened with the in-flight delete allowed either way.",
+   "Sampled histories, one sequential client; listings judged at quiescent points; delete overlapping a background level compaction is not scheduled deterministically (only through C19 stress).",
+   "DESIGN.md section 3 C10"),
  "C12": ("exploration",
    "constructive generator with independent line-protocol writer + mutational hostile inputs, round-trip and request-isolation oracles, under checkptr in a supervised child",
    "Abstract points rendered by an independent writer (all escapes, numeric forms, precisions, unsorted tags) must parse to exactly that point; mutated/hostile text and binary inputs must not crash (checkptr build, supervised child) and accepted points must round-trip through String() and MarshalBinary bit-exactly; multi-line requests with a bad line must yield exactly the points of their good lines; Key/HashID independent of tag order; duplicate tags rejected.",
